@@ -210,6 +210,145 @@ theorem restart_after_last_hook (s : St) (hto : 0 < s.timeout) (hb : s.blocker =
     · simp [step, env, run, runStep, hw, h1]
     · simp [step, env, run, runStep, hw]
 
+
+/-! ### the history-level specification: closed exactly when some prefix of the history is idle -/
+
+/-- what a history of environment events says by itself (no watcher): the clock, the time of the last activity or
+    last-hook completion, and the number of hooks in progress -/
+structure Hist where
+  now : Nat
+  last : Nat
+  pending : Nat
+  deriving DecidableEq, Repr
+
+def Hist.step (h : Hist) : Op → Hist
+  | .activity => { h with last := h.now }
+  | .enter => { h with pending := h.pending + 1 }
+  | .exit =>
+    if h.pending = 0 then h
+    else if h.pending = 1 then { h with pending := 0, last := h.now }
+    else { h with pending := h.pending - 1 }
+  | .tick d => { h with now := h.now + d }
+
+def hist (ops : List Op) : Hist := ops.foldl Hist.step ⟨0, 0, 0⟩
+
+/-- the connection is idle after `ops`: no hook in progress and at least `to` ticks since the last event -/
+def IdleAt (to : Nat) (ops : List Op) : Prop := (hist ops).pending = 0 ∧ (hist ops).last + to ≤ (hist ops).now
+
+private theorem rev_ind {α : Type} {motive : List α → Prop} (nil : motive [])
+    (append_singleton : ∀ l a, motive l → motive (l ++ [a])) : ∀ l, motive l := by
+  intro l
+  rw [← List.reverse_reverse l]
+  induction l.reverse with
+  | nil => exact nil
+  | cons a t ih => rw [List.reverse_cons]; exact append_singleton _ _ ih
+
+private def absH (s : St) : Hist := ⟨s.now, s.last, s.blocker⟩
+
+private theorem absH_step (s : St) (o : Op) (hto : 0 < s.timeout) (hl : s.last ≤ s.now) :
+    absH (step s o) = (absH s).step o := by
+  obtain ⟨_, h2, h3, h4, _, _⟩ := run_cases (env s o) (by rw [env_timeout]; exact hto) (env_last_le s o hl)
+  simp only [absH, step, h2, h3, h4]
+  cases o with
+  | activity => rfl
+  | enter => rfl
+  | tick d => rfl
+  | exit =>
+    simp only [env, Hist.step]
+    split
+    · rfl
+    · split <;> rfl
+
+/-- **exec_hist.** The watcher never disturbs the bookkeeping: clock, last event and pending count of every reachable
+    state are those the history alone determines. -/
+theorem exec_hist (to : Nat) (hto : 0 < to) (ops : List Op) :
+    (exec (start to) ops).now = (hist ops).now ∧ (exec (start to) ops).last = (hist ops).last ∧
+    (exec (start to) ops).blocker = (hist ops).pending := by
+  have key : absH (exec (start to) ops) = hist ops := by
+    induction ops using rev_ind with
+    | nil =>
+      have h : ¬ (to ≤ 0) := by omega
+      simp [exec, hist, absH, start, run, runStep, init, h]
+    | append_singleton ops o ih =>
+      have g := reachable_good to hto ops
+      have e : exec (start to) (ops ++ [o]) = step (exec (start to) ops) o := by
+        simp only [exec, List.foldl_append, List.foldl_cons, List.foldl_nil]
+      have e' : hist (ops ++ [o]) = (hist ops).step o := by
+        simp only [hist, List.foldl_append, List.foldl_cons, List.foldl_nil]
+      rw [e, e', ← ih]
+      exact absH_step _ o (by rw [g.tmo]; exact hto) g.clock
+  simp only [absH] at key
+  rw [← key]
+  exact ⟨rfl, rfl, rfl⟩
+
+private theorem run_fired (s : St) (h : s.pc = .fired) : (run s).pc = .fired := by
+  obtain ⟨to, now, last, bl, can, pc⟩ := s
+  simp only at h
+  subst h
+  simp [run, runStep]
+
+private theorem exec_fired (s : St) (ops : List Op) (h : s.pc = .fired) : (exec s ops).pc = .fired := by
+  induction ops generalizing s with
+  | nil => simpa [exec] using h
+  | cons o ops ih =>
+    simp only [exec, List.foldl_cons]
+    exact ih _ (run_fired _ (by rw [env_pc]; exact h))
+
+/-- **closed_iff_idle_prefix.** For every schedule: the connection has been closed for inactivity exactly when, at some
+    point of the history, no hook was in progress and `timeout` ticks had passed since the last activity or the last
+    hook completion.  Both directions of the property's first two sentences, and its third, in one statement. -/
+theorem closed_iff_idle_prefix (to : Nat) (hto : 0 < to) (ops : List Op) :
+    (exec (start to) ops).pc = .fired ↔ ∃ k, k ≤ ops.length ∧ IdleAt to (ops.take k) := by
+  constructor
+  · intro hf
+    induction ops using rev_ind with
+    | nil =>
+      have h : ¬ (to ≤ 0) := by omega
+      simp [exec, start, run, runStep, init, h] at hf
+    | append_singleton ops o ih =>
+      by_cases hp : (exec (start to) ops).pc = .fired
+      · obtain ⟨k, hk, hi⟩ := ih hp
+        refine ⟨k, by simp only [List.length_append, List.length_singleton]; omega, ?_⟩
+        rwa [List.take_append_of_le_length hk]
+      · have e : exec (start to) (ops ++ [o]) = step (exec (start to) ops) o := by
+          simp only [exec, List.foldl_append, List.foldl_cons, List.foldl_nil]
+        rw [e] at hf
+        have g := reachable_good to hto ops
+        have hb := never_fires_while_blocked _ o g.flag (by rw [g.tmo]; exact hto) g.clock hp hf
+        have ha := active_not_closed _ o (by rw [g.tmo]; exact hto) g.clock hp hf
+        have g' := reachable_good to hto (ops ++ [o])
+        obtain ⟨h1, h2, h3⟩ := exec_hist to hto (ops ++ [o])
+        rw [← e] at hb ha
+        refine ⟨(ops ++ [o]).length, Nat.le_refl _, ?_⟩
+        rw [List.take_length]
+        have ht := g'.tmo
+        refine ⟨by rw [← h3]; exact hb, ?_⟩
+        rw [← h2, ← h1]
+        rw [ht] at ha
+        exact ha
+  · rintro ⟨k, hk, hi⟩
+    obtain ⟨h1, h2, h3⟩ := exec_hist to hto (ops.take k)
+    have g := reachable_good to hto (ops.take k)
+    have hf := idle_closes to hto (ops.take k) (by rw [h3]; exact hi.1) (by rw [h2, h1, g.tmo]; exact hi.2)
+    have e : exec (start to) ops = exec (exec (start to) (ops.take k)) (ops.drop k) := by
+      simp only [exec, ← List.foldl_append, List.take_append_drop]
+    rw [e]
+    exact exec_fired _ _ hf
+
+/-- **not_closed_while_never_idle.** A connection whose history was never idle — every gap shorter than the timeout or
+    bridged by a pending hook — is still open. -/
+theorem not_closed_while_never_idle (to : Nat) (hto : 0 < to) (ops : List Op)
+    (h : ∀ k, k ≤ ops.length → ¬ IdleAt to (ops.take k)) : (exec (start to) ops).pc ≠ .fired := by
+  intro hf
+  obtain ⟨k, hk, hi⟩ := (closed_iff_idle_prefix to hto ops).mp hf
+  exact h k hk hi
+
+instance (to : Nat) (ops : List Op) : Decidable (IdleAt to ops) := by unfold IdleAt; infer_instance
+
+-- non-vacuity: a hook bridging the deadline keeps every prefix non-idle; one more idle period closes
+example : ∀ k, k ≤ 5 → ¬ IdleAt 4 ([Op.tick 3, .enter, .tick 2, .exit, .tick 3].take k) := by decide
+example : IdleAt 4 [Op.tick 3, .enter, .tick 2, .exit, .tick 4] := by decide
+
 -- non-vacuity: concrete schedules on which the guards hold and the conclusions are informative
 example : (exec (start 4) [.tick 3, .enter, .tick 2]).pc = .wait ∧
           (exec (start 4) [.tick 3, .enter, .tick 2]).blocker = 1 := by decide   -- hook spans the deadline: not fired
